@@ -6,3 +6,4 @@ import BB.Props.C13
 #print axioms BB.from_slots
 #print axioms BB.show_from
 #print axioms BB.from_show
+#print axioms BB.from_show_prog
